@@ -385,6 +385,11 @@ def c11(run, ck):
     # spec -> implementation: every history of length L of the Api machine, replayed through the real API
     cases = os.path.join(run.work, "gen_api.ndjson")
     run.generate("Gen_Api", cfg="Gen_Api_thorough.cfg" if run.thorough else "Gen_Api.cfg", workers=8, out_file=cases)
+    # the same machine with user functions (BindFunc) and serialization round trips (SerRound) in the alphabet
+    cases2 = os.path.join(run.work, "gen_api_ext.ndjson")
+    run.generate("Gen_Api", cfg="Gen_Api_ext_thorough.cfg" if run.thorough else "Gen_Api_ext.cfg", workers=8, out_file=cases2)
+    with open(cases, "a") as f, open(cases2) as g:
+        f.write(g.read())
     obs = os.path.join(run.work, "gen_api_obs.ndjson")
     ck.sh([run.vh, "replay-hist", cases, obs], cwd=run.work, timeout=3600)
     verdicts, recs = run.validate(obs, "Trace_Api", cfg="Trace_Api.cfg", parts=8, label="TLC-generated histories")
@@ -394,7 +399,7 @@ def c11(run, ck):
     run.drive("api", 3000 if run.thorough else 250, out)
     verdicts, recs = run.validate(out, "Trace_Api", cfg="Trace_Api.cfg", parts=8, label="api histories")
     simple_violations(run, ck, verdicts, recs, "api", describe=lambda rec, v: "")
-    return dict(rule="random histories (10-200 steps) over {new/clone context, add/replace program (source or precompiled), new/clone bindings, bind/rebind (directly or from JSON), exec, details} on up to 8 program names and 4 variables; "
+    return dict(rule="random histories (10-200 steps) over {new/clone context, add/replace program (source or precompiled), new/clone bindings, bind/rebind (directly or from JSON), bind/rebind user function, program through JSON/bincode serialization into any context, exec, details} on up to 10 program names, 5 variables and 2 function names; "
                      "after every call the recorded objects must equal the specification's state and every exec must be an outcome of the current programs and bindings; 16 threads replay histories concurrently, each validated on its own",
                 assumptions=["thread schedules are whatever the OS produces"])
 
